@@ -216,6 +216,14 @@ def hasAdjacentStatements (n : Node) : Bool :=
     | .stmts l => (l.filter fun s => !(s matches .comment)).length ≥ 2
     | _ => false) n
 
+/-- "unquote-of-non-parameter" (outside the property's quantifier): some stored template unquotes something
+that is not one of its parameters; the value is evaluated in the bare macro state and anything but an
+integer, a boolean or a quote becomes a Go nil node, which the printer dereferences -/
+def nonParamUnquote (s : Store) : Bool :=
+  s.any fun (_, m) => match m.body with
+    | .stmts l => !(l.all (paramOnly m.params))
+    | _ => false
+
 /-! ### cases -/
 
 structure Rec where
@@ -316,8 +324,9 @@ def runCase (inp obs : String) : CaseResult :=
               if !r.rn && repeatedAssocOnRight xt then "repeated-associative-operator-on-the-right"
               else if !r.rn && stmtStartsWithPrefixOp xt then "statement-starts-with-prefix-operator"
               else if r.rn && !r.rc && (hasAdjacentStatements xt || repeatedAssocOnRight xt) then "compact-adjacent-statements"
+              else if nonParamUnquote sstore' then "unquote-of-non-parameter"
               else ""
-            | none => ""
+            | none => if nonParamUnquote sstore' then "unquote-of-non-parameter" else ""
           let restImpl := s1 implX && r.q && s3 r.ms && s5
           let restModel := s1 m.x && r.q && s3 m.ms && s5
           if !restImpl then otherFail := true
